@@ -43,8 +43,8 @@ AUDIT = 'XsVerif.Audit.C04'
 LEAN_TARGETS = ['XsVerif.Props.C04', 'drv_c04']
 LEANCHECK = ['XsVerif.Model.Modes', 'XsVerif.Lemmas.Modes', 'XsVerif.Props.C04']
 RULE = ('a case is one (XSD version, schema family, generated document); documents are valid instances damaged by '
-        '0-5 faults drawn from 23 fault classes (content model, datatypes/facets, attribute uses, xsi:type / '
-        'nil / abstract / substitution, key/keyref/unique, ID/IDREF, unknown root, XSD 1.1 assertion); every case is '
+        '0-5 faults drawn from 24 fault classes (content model, datatypes/facets, attribute uses, xsi:type / '
+        'nil / abstract / substitution, key/keyref/unique, ID/IDREF, unknown root name / namespace, XSD 1.1 assertion); every case is '
         'run through all entry points x modes x source kinds; non-trivial = the document is invalid, or valid with '
         'more than 3 decoded items; distinct by canonical JSON of (version, family, XML text)')
 TRUSTED = [
@@ -85,6 +85,8 @@ def known_match(case: dict, detail: Any) -> Optional[str]:
     C11-F4  OverflowError raised by a skip-mode decoding entry point for a value the lax run reports as
             'year overflow' style decode error.
     C11-F5  XMLSchemaKeyError "global component … not found" for an xsi:type attribute on a non-root element.
+    C11-F7  XMLSchemaKeyError "the namespace '<ns>' is not loaded" from a decoding entry point where <ns> is the
+            namespace of the document's root element.
     """
     if not isinstance(detail, dict):
         return None
@@ -97,6 +99,15 @@ def known_match(case: dict, detail: Any) -> Optional[str]:
         exc, entry, msg = detail.get('exc'), detail.get('entry', ''), detail.get('msg', '')
         if exc == 'OverflowError' and entry.endswith(':skip'):
             return 'C11-F4'
+        m = re.search(r"the namespace '([^']*)' is not loaded", msg)
+        if exc == 'XMLSchemaKeyError' and m and re.search(r'(decode|to_dict)', entry):
+            rm = re.match(r'<(?:(\w+):)?\w+', case.get('xml', ''))
+            if rm:
+                pfx = rm.group(1)
+                decl = re.search(r'xmlns%s="([^"]*)"' % (':' + pfx if pfx else ''), case['xml'])
+                if (decl.group(1) if decl else '') == m.group(1):
+                    return 'C11-F7'
+            return None
         if exc == 'XMLSchemaKeyError' and 'global component' in msg and 'not found' in msg:
             m = re.search(r"global component '([^']*)'", msg)
             name = m.group(1) if m else ''
@@ -972,7 +983,7 @@ def witness_cases() -> list[dict]:
 
 
 def run(ctx: Ctx, driver_ok: bool) -> None:
-    ctx.known.extend(e for e in local_findings() if e.get('id') in ('C04-F2', 'C04-F3', 'C11-F4', 'C11-F5')
+    ctx.known.extend(e for e in local_findings() if e.get('id') in ('C04-F2', 'C04-F3', 'C11-F4', 'C11-F5', 'C11-F7')
                      and not any(k['id'] == e['id'] for k in ctx.known))
     drv = Driver('drv_c04') if driver_ok else None
     env = Env(ctx)
